@@ -128,6 +128,7 @@ def tokens_of(doc: dict) -> list[tuple[str, str]]:
                         todo.append(("tok", ("bar", "|")))
                     todo.append(("body", alt))
                 todo.append(("tok", ("sclose", ")")))
+                todo.append(("deco", decos.get("tail")))  # annotations after the split's closing bracket
             stack.extend(reversed(todo))
     out.append(("close", ")"))
     return out
